@@ -37,6 +37,7 @@ class Contract:
         self.xinv = kw.pop('xinv', True)
         self.frame_props = kw.pop('frame_props', None)
         self.variant = kw.pop('variant', None)
+        self.native = kw.pop('native', True)            # usable by the run-time monitor
         self.pruning = kw.pop('pruning', True)
         self.ghost_init = kw.pop('ghost_init', None)     # name of an engine routine initialising per-call ghosts
         self.view = kw.pop('view', None)                 # variant used to look up callees' contracts
@@ -173,9 +174,9 @@ def ghost():
 class Old:
     """Snapshot namespace handed to predicates as `old` in the concrete reading."""
 
-    def __init__(self, **kw):
-        self.__dict__.update(kw)
-        self.ids__ = set()
+    def __init__(*a, **kw):
+        a[0].__dict__.update(kw)
+        a[0].ids__ = set()
 
 
 NATIVE_HELPERS = dict(implies=implies, iff=iff, index_of=index_of, order_of=order_of, key_at=key_at,
